@@ -101,6 +101,13 @@ class _LockModel:
         held.append(obj)
         return None
 
+    def m_locked(self, interp, obj, args, kwargs, fr):
+        # held by this task: True; otherwise another task may or may not hold it
+        for h in getattr(interp, "held_locks", None) or []:
+            if h is obj:
+                return True
+        return SymBool(z3.Bool(interp.ctx.fresh_name("lock.locked")))
+
     def m___aexit__(self, interp, obj, args, kwargs, fr):
         interp.traces.setdefault("locks", []).append(("release", obj.tag))
         held = getattr(interp, "held_locks", None) or []
